@@ -44,6 +44,11 @@ SIG_F21 = ("C10:F21 AverageLearner1D.tell_many_at_point re-tells: a known seed i
            "(tell ignores it; nsamples exceeds the number of distinct samples)")
 
 
+# vector-valued outputs (zero vectors among the told values) and a 3-D LearnerND behind both wrappers
+EXTRA_SPECS = [{"kind": "L1D", "vec": True}, {"kind": "LND", "vec": True}, {"kind": "DS", "child": {"kind": "LND", "dim": 3}},
+               {"kind": "Bal", "child": {"kind": "LND", "dim": 3, "loss": "uniform"}, "nchild": 2, "strategy": "loss_improvements"}]
+
+
 def sig(spec, clause):
     return f"C10:{G.spec_name(c09._sig_spec(spec))}:{clause}"
 
@@ -58,6 +63,7 @@ class Oracle:
         self.errors = []        # (signature, message)
         self.stop = False
         self.rehanded = set()   # told keys that a committing ask handed out again
+        self.no_tri_leaf = False  # before the last ask: some LearnerND leaf had no triangulation (F24's precondition)
 
     def err(self, signature, msg):
         if all(s != signature for s, _ in self.errors):
@@ -79,6 +85,23 @@ class Oracle:
                 self.pending.add(k)
             else:
                 self.rehanded.add(k)
+
+    def check_ask(self, op, out):
+        """ask returns distinct points."""
+        ks = [self.ad.key(self.ad.point(p)) for p in out[1]]
+        dup = [k for i, k in enumerate(ks) if k in ks[:i]]
+        if not dup or G.base_kind(self.spec) == "Avg1D":
+            # AverageLearner1D keeps offering (seed 0, bound) while that sample is only pending (its _missing_bounds looks for
+            # the bare abscissa among (seed, x) tuples); a BalancingLearner then repeats it inside one ask.  Not a listed
+            # finding: reported in the builder's notes, not decided here.
+            return
+        name = G.spec_name(self.spec)
+        if G.base_kind(self.spec) == "LND" and self.no_tri_leaf:
+            self.err(SIG_F24, f"{name}: {G.short(op)} returned the point {G.short(dup[0])} {ks.count(dup[0])} times "
+                              f"(random point of a child without triangulation, RNG rolled back)")
+            self.stop = True
+            return
+        self.err(sig(self.spec, "ask-distinct"), f"{name}: {G.short(op)} returned the point {G.short(dup[0])} {ks.count(dup[0])} times")
 
     def note_tell_pending(self, p):
         k = self.ad.key(self.ad.point(p))
@@ -235,7 +258,11 @@ def run_case(args):
     H, handed = [], []
     stats = {"retell_same": 0, "retell_alt": 0, "unsolicited": 0, "discard_with_pending": 0, "batch": 0}
     snap = G.snapshot(ad, l, fresh=True)
-    script = G.directed_ops(ad, l, rng) if directed else None
+    script = None
+    if directed == "hull":
+        script = G.hull_ops(ad, l, rng)
+    elif directed:
+        script = G.directed_ops(ad, l, rng)
     out = None
     for _ in range(nops):
         op = None
@@ -248,6 +275,11 @@ def run_case(args):
             op = G.gen_op(ad, l, rng, handed, w)
         before = snap
         known_before = {ad.key(ad.point(p)) for p in G.known_points(ad, l)} if op[0] in ("tell", "tell_many") else set()
+        zero_before = op[0] in ("tell", "tell_many") and any(
+            G.is_falsy(G.told_value(ad, l, p)) for p in G.known_points(ad, l)
+            if ad.key(ad.point(G.plain(p))) in {ad.key(ad.point(q)) for q in ([op[1]] if op[0] == "tell" else op[1])})
+        if op[0] == "ask":
+            orc.no_tri_leaf = any(a.spec["kind"] == "LND" and b.tri is None for a, b in c09.leaves(ad, l))
         out = G.apply_op(ad, l, op)
         H.append(op)
         if G.is_exc(out):
@@ -265,6 +297,7 @@ def run_case(args):
         c09.track_handed(ad, op, out, handed)
         retell = None
         if op[0] == "ask":
+            orc.check_ask(op, out)
             if op[2]:
                 orc.note_ask(out)
         elif op[0] == "tell":
@@ -296,6 +329,8 @@ def run_case(args):
             orc.check_discard(l, op, before, snap)
         if orc.stop or len(orc.errors) >= 3:
             break
+        if retell is not None:
+            stats["retell_of_zero"] = stats.get("retell_of_zero", 0) + bool(zero_before)
     fails = [{"signature": s, "what": m, "replay": {"spec": spec, "ops": H}} for s, m in orc.errors]
     return {"spec": spec, "len": len(H), "fails": fails, "stats": stats, "ops": H[:10], "kinds": [op[0] for op in H],
             "ntold": len(orc.told)}
@@ -311,6 +346,8 @@ def replay_case(spec, ops):
     for i, op in enumerate(ops):
         before = snap
         known_before = {ad.key(ad.point(p)) for p in G.known_points(ad, l)} if op[0] in ("tell", "tell_many") else set()
+        if op[0] == "ask":
+            orc.no_tri_leaf = any(a.spec["kind"] == "LND" and b.tri is None for a, b in c09.leaves(ad, l))
         out = G.apply_op(ad, l, op)
         if G.is_exc(out):
             if op[0] == "ask":
@@ -321,6 +358,8 @@ def replay_case(spec, ops):
                 orc.err(sig(spec, f"{op[0]}-raises-{out[1]}"), f"{G.spec_name(spec)} after {i} ops: {G.short(op)} raised {out[1]}: {out[2]}")
             break
         retell = None
+        if op[0] == "ask":
+            orc.check_ask(op, out)
         if op[0] == "ask" and op[2]:
             orc.note_ask(out)
         elif op[0] == "tell":
@@ -481,13 +520,14 @@ def run(chk: Check) -> int:
         chk.fail(SIG_F7, f"Learner2D cannot go beyond its four corner points on this platform: {G.short(l2d_exc)}",
                  {"spec": {"kind": "L2D"}, "ops": [], "smoke": "l2d"})
     bi_exc = c09.bal_int_smoke()
-    specs = c09.all_specs(l2d_ok=not l2d_exc, bal_int_ok=not bi_exc)
+    specs = c09.all_specs(l2d_ok=not l2d_exc, bal_int_ok=not bi_exc) + EXTRA_SPECS
     per = 20 if chk.quick else 120
     nops = 30 if chk.quick else 90
     jobs = []
     for si, spec in enumerate(specs):
         for c in range(per):
-            jobs.append((spec, chk.rng("case", si, c).randrange(1 << 30), nops, c % 3 == 0))
+            mode = True if c % 3 == 0 else ("hull" if c % 3 == 1 and G.base_kind(spec) == "LND" else False)
+            jobs.append((spec, chk.rng("case", si, c).randrange(1 << 30), nops, mode))
     for f in sorted((chk.work.parents[1] / "corpus" / "C10").glob("*.json")):
         d = json.loads(f.read_text())
         for s, m in replay_case(d["spec"], d["ops"]):
@@ -507,7 +547,7 @@ def run(chk: Check) -> int:
         for k in r["kinds"]:
             kinds[k] = kinds.get(k, 0) + 1
         for k, v in r["stats"].items():
-            tot[k] += v
+            tot[k] = tot.get(k, 0) + v
         st = r["stats"]
         chk.note_case((r["spec"], r["ops"], r["len"]),
                       (st["retell_same"] + st["retell_alt"]) > 0 and st["discard_with_pending"] > 0 and r["ntold"] > 2)
